@@ -46,13 +46,16 @@ type J struct {
 	M     []kv
 }
 
-func jnull() *J         { return &J{Kind: kNull} }
-func jbool(b bool) *J   { return &J{Kind: kBool, B: b} }
-func jstr(s string) *J  { return &J{Kind: kStr, S: s} }
-func jarr(l ...*J) *J   { return &J{Kind: kArr, L: l} }
-func jobj(m ...kv) *J   { return &J{Kind: kObj, M: m} }
-func jint(n int64) *J   { return &J{Kind: kNum, Z: big.NewInt(n), Plain: true, Lit: fmt.Sprint(n)} }
-func jbig(s string) *J  { z, _ := new(big.Int).SetString(s, 10); return &J{Kind: kNum, Z: z, Plain: true, Lit: s} }
+func jnull() *J        { return &J{Kind: kNull} }
+func jbool(b bool) *J  { return &J{Kind: kBool, B: b} }
+func jstr(s string) *J { return &J{Kind: kStr, S: s} }
+func jarr(l ...*J) *J  { return &J{Kind: kArr, L: l} }
+func jobj(m ...kv) *J  { return &J{Kind: kObj, M: m} }
+func jint(n int64) *J  { return &J{Kind: kNum, Z: big.NewInt(n), Plain: true, Lit: fmt.Sprint(n)} }
+func jbig(s string) *J {
+	z, _ := new(big.Int).SetString(s, 10)
+	return &J{Kind: kNum, Z: z, Plain: true, Lit: s}
+}
 func jfrac(lit string, ip int64) *J {
 	return &J{Kind: kNum, Z: big.NewInt(ip), Lit: lit}
 }
@@ -334,7 +337,10 @@ func (g *gen) str() *J {
 	case 0:
 		return jstr(string(r.Bytes(r.IntN(12))))
 	case 1:
-		return jstr(strings.Repeat("A", 3000+r.IntN(3000)))
+		if r.Chance(1, 20) {
+			return jstr(strings.Repeat("A", 2000+r.IntN(1000)))
+		}
+		return jstr(strings.Repeat("Ab", 60+r.IntN(60)))
 	default:
 		return jstr(drv.Pick(r, strPool))
 	}
@@ -451,6 +457,9 @@ func (g *gen) good(t ft, depth int) *J {
 		}
 		return jarr(jstr("en"), jstr("de-CH"), jstr("xx"))
 	case tActor:
+		if depth <= 0 {
+			return jobj(kv{"sub", jstr("leaf")}, kv{"iss", jstr("https://op.example.com")})
+		}
 		return g.object(scActor, depth-1, true)
 	default:
 		return g.object(scAddress, 0, true)
